@@ -790,7 +790,15 @@ type c13MarshalTo interface {
 }
 type c13Unmarshaler interface{ Unmarshal([]byte) error }
 
-type c13Scratch struct{ buf []byte }
+type c13Scratch struct{ buf, abuf []byte }
+
+// alias returns a second scratch buffer (for the input-aliasing check).
+func (s *c13Scratch) alias(n int) []byte {
+	if cap(s.abuf) < n {
+		s.abuf = make([]byte, n+n/4+1024)
+	}
+	return s.abuf[:n]
+}
 
 func (s *c13Scratch) get(n int) []byte {
 	if cap(s.buf) < n {
@@ -831,6 +839,23 @@ func c13CheckValue(t *c13Type, p reflect.Value, sc *c13Scratch) (clause string, 
 		}
 		if d := c13Equal(exp, q, t.name); d != "" {
 			return "roundtrip-mismatch: " + what + ": " + d
+		}
+		// the decoded value must stay equal when the caller reuses the buffer it
+		// was decoded from (transport connections, Tan and the KV iterators decode
+		// every record from one scratch buffer): decode a private copy, overwrite
+		// it, compare again
+		if len(b) > 0 && len(b) <= 4096 {
+			cp := sc.alias(len(b))
+			copy(cp, b)
+			q2 := reflect.New(t.typ)
+			if err := q2.Interface().(c13Unmarshaler).Unmarshal(cp); err == nil {
+				for i := range cp {
+					cp[i] ^= 0xA5
+				}
+				if d := c13Equal(exp, q2, t.name); d != "" {
+					return "decoded-value-aliases-input-buffer: " + what + ": after the input buffer was overwritten: " + d
+				}
+			}
 		}
 		return ""
 	}
